@@ -161,17 +161,18 @@ func (r *lqRun) bootstrapTxs(i int) []*types.Transaction {
 		return txs
 	case 1:
 		var txs []*types.Transaction
-		for k := 0; k < 3; k++ {
-			txs = append(txs, vlEvmCreateP(n.ethKeys[0], uint64(k), vlInitCode(vlLoggerRuntime), 0))
-		}
-		// (gas price 0: the fee receiver, the governance contract, holds no ONG until the first fee-paying model block)
-		txs = append(txs, vlEvmCreateP(n.ethKeys[0], 3, vlInitCode(vlLogger2Runtime), 0))
+		// the NeoVM deployment comes first: the first state write of this block is a Put
 		mt, err := cutils.NewDeployTransaction(neoPutCode, "put", "1", "verif", "", "storage put", payload.NEOVM_TYPE)
 		vhMust(err)
 		mt.Nonce = 400
 		tx, err := mt.IntoImmutable()
 		vhMust(err)
 		txs = append(txs, tx)
+		for k := 0; k < 3; k++ {
+			txs = append(txs, vlEvmCreateP(n.ethKeys[0], uint64(k), vlInitCode(vlLoggerRuntime), 0))
+		}
+		// (gas price 0: the fee receiver, the governance contract, holds no ONG until the first fee-paying model block)
+		txs = append(txs, vlEvmCreateP(n.ethKeys[0], 3, vlInitCode(vlLogger2Runtime), 0))
 		return txs
 	}
 	return nil
@@ -271,7 +272,7 @@ func (r *lqRun) modelTxs(shape string, variant int) []*types.Transaction {
 	nonce := acc.Nonce
 	var txs []*types.Transaction
 	key := func(j int) string { return fmt.Sprintf("%s/%s/%d/%d", parent.ToHexString(), shape, j, variant) }
-	if len(sh.Logs) > 0 {
+	if len(sh.Logs) > 0 || strings.HasSuffix(shape, "f") {
 		logs := append([][2]string(nil), sh.Logs...)
 		sort.Slice(logs, func(a, b int) bool { return logs[a][0]+logs[a][1] < logs[b][0]+logs[b][1] })
 		for j, l := range logs {
@@ -491,6 +492,7 @@ type lqObs struct {
 	Pre     map[string]interface{}   `json:"pre,omitempty"`
 	Stored  bool                     `json:"stored"`
 	Listing map[string]string        `json:"listing,omitempty"`
+	EvInfo  [][3]int                 `json:"evinfo"` // per transaction of the queried blocks: model height, notify state, EVM logs
 }
 
 func lqClassify(err error) string {
@@ -513,6 +515,8 @@ func lqClassify(err error) string {
 		return "signature"
 	case strings.Contains(s, "state merkle root mismatch"):
 		return "stateroot"
+	case strings.Contains(s, "verifyBlockBody error"):
+		return "txroot"
 	case strings.Contains(s, "wrong block root"):
 		return "blockroot"
 	}
@@ -734,6 +738,13 @@ func (r *lqRun) observe(o *lqObs, all bool) {
 			evs = nil // no event record for a block without transactions
 		}
 		for _, ev := range evs {
+			nl := 0
+			for _, ne := range ev.Notify {
+				if _, err := event.NotifyEventInfoToEvmLog(ne); err == nil {
+					nl++
+				}
+			}
+			o.EvInfo = append(o.EvInfo, [3]int{int(real) - int(r.B), int(ev.State), nl})
 			for _, ne := range ev.Notify {
 				sl, err := event.NotifyEventInfoToEvmLog(ne)
 				if err != nil {
